@@ -37,14 +37,18 @@ class Unsupported(Exception):
 TARGETS = {
     "C09": [("py_trees/decorators.py", c, "update", c + "_update") for c in (
         "Inverter", "RunningIsFailure", "RunningIsSuccess", "FailureIsSuccess", "FailureIsRunning", "SuccessIsFailure",
-        "SuccessIsRunning", "PassThrough", "Condition")] + [
+        "SuccessIsRunning", "PassThrough", "Condition", "StatusToBlackboard")] + [
         ("py_trees/decorators.py", "Count", f, "Count_" + f) for f in ("update", "terminate", "setup")],
     "C10": [("py_trees/decorators.py", "Retry", "update", "Retry_update"),
             ("py_trees/decorators.py", "Retry", "initialise", "Retry_initialise"),
             ("py_trees/decorators.py", "Repeat", "update", "Repeat_update"),
             ("py_trees/decorators.py", "Repeat", "initialise", "Repeat_initialise"),
             ("py_trees/decorators.py", "Timeout", "update", "Timeout_update"),
-            ("py_trees/decorators.py", "Timeout", "initialise", "Timeout_initialise")],
+            ("py_trees/decorators.py", "Timeout", "initialise", "Timeout_initialise"),
+            ("py_trees/decorators.py", "EternalGuard", "update", "EternalGuard_update"),
+            ("py_trees/decorators.py", "OneShot", "update", "OneShot_update"),
+            ("py_trees/decorators.py", "OneShot", "terminate", "OneShot_terminate"),
+            ("py_trees/common.py", "OneShotPolicy", "<enum>", "OneShotPolicy")],
     "C15": [("py_trees/blackboard.py", "Blackboard", "absolute_name", "absolute_name"),
             ("py_trees/blackboard.py", "Blackboard", "relative_name", "relative_name")],
     "C17": [("py_trees/behaviours.py", "SuccessEveryN", "update", "SuccessEveryN_update"),
@@ -69,7 +73,7 @@ BRIDGE = {
     "RunningIsSuccess_update": "C09_gen_runningIsSuccess", "FailureIsSuccess_update": "C09_gen_failureIsSuccess",
     "FailureIsRunning_update": "C09_gen_failureIsRunning", "SuccessIsFailure_update": "C09_gen_successIsFailure",
     "SuccessIsRunning_update": "C09_gen_successIsRunning", "PassThrough_update": "C09_gen_passThrough",
-    "Condition_update": "C09_gen_condition", "Count_update": "C09_gen_count_update",
+    "Condition_update": "C09_gen_condition", "StatusToBlackboard_update": "C09_gen_statusToBlackboard", "Count_update": "C09_gen_count_update",
     "Count_terminate": "C09_gen_count_terminate", "Count_setup": "C09_gen_count_setup",
     "Retry_update": "C10_gen_retry_update", "Retry_initialise": "C10_gen_retry_initialise",
     "Repeat_update": "C10_gen_repeat_update", "Repeat_initialise": "C10_gen_repeat_initialise",
@@ -77,6 +81,8 @@ BRIDGE = {
     "SuccessEveryN_update": "C17_gen_everyN", "TickCounter_update": "C17_gen_tickcounter_update",
     "TickCounter_initialise": "C17_gen_tickcounter_initialise",
     "Timeout_update": "C10_gen_timeout_update", "Timeout_initialise": "C10_gen_timeout_initialise",
+    "EternalGuard_update": "C10_gen_guard_update", "OneShot_update": "C10_gen_oneshot_update", "OneShot_terminate": "C10_gen_oneshot_terminate",
+    "OneShotPolicy": "C10_gen_oneshot_terminate",
     "Timer_update": "C17_gen_timer_update", "Timer_initialise": "C17_gen_timer_initialise",
     "Blackboard_key": "C17_gen_blackboard_key",
     "Blackboard_key_with_attributes": "C17_gen_blackboard_key_with_attributes",
@@ -85,7 +91,8 @@ BRIDGE = {
 }
 
 LEAN_TYPE = {"Int": "Int", "Str": "List Char", "Status": "Status", "Bool": "Bool", "Ref": "Option Nat",
-             "StrList": "List (List Char)", "StrPair": "List Char × List Char"}
+             "StrList": "List (List Char)", "StrPair": "List Char × List Char", "OptStatus": "Option Status",
+             "StatusList": "List Status"}
 
 
 def find_class(tree, name):
@@ -108,6 +115,7 @@ def ann_type(a):
     s = ast.unparse(a)
     # durations / clock readings are floats in the code and integers in the model (integer clock, DESIGN §3)
     return {"int": "Int", "float": "Int", "str": "Str", "bool": "Bool", "common.Status": "Status",
+            "common.OneShotPolicy": "OneShotPolicy",
             "typing.Tuple[str, str]": "StrPair", "Tuple[str, str]": "StrPair", "tuple[str, str]": "StrPair"}.get(s)
 
 
@@ -126,6 +134,12 @@ def field_types(cls):
     params = {a.arg: ann_type(a.annotation) for a in init.args.args}
     for st in ast.walk(init):
         if isinstance(st, ast.AnnAssign) and st.value is not None:
+            t = st.target
+            if isinstance(t, ast.Attribute) and isinstance(t.value, ast.Name) and t.value.id == "self" \
+                    and ast.unparse(st.annotation) in ("typing.Optional[common.Status]", "Optional[common.Status]") \
+                    and isinstance(st.value, ast.Constant) and st.value.value is None:
+                out[t.attr] = "OptStatus"
+                continue
             st = ast.Assign(targets=[st.target], value=st.value)
         if isinstance(st, ast.Assign) and len(st.targets) == 1:
             t = st.targets[0]
@@ -203,6 +217,10 @@ class Fn(object):
         self.writes.sort()
         self.cancels = any(isinstance(n, ast.Call) and ast.unparse(n.func) == "self.decorated.stop"
                            for n in ast.walk(self.fn))
+        # self.blackboard.set(name=self.variable_name, value=<status>, overwrite=True): the value published under the
+        # decorator's own variable is an extra result (Option Status: none = nothing published on this path)
+        self.publishes = any(isinstance(n, ast.Call) and ast.unparse(n.func) == "self.blackboard.set"
+                             for n in ast.walk(self.fn))
         self.uses_now = False
         self.has_value = any(isinstance(n, ast.Return) and n.value is not None for n in ast.walk(self.fn))
 
@@ -221,6 +239,14 @@ class Fn(object):
             env[key] = ("f_" + name, self.ftypes[name])
         return env[key]
 
+    def truth(self, e, env):
+        """an expression in a boolean position: a Bool, or an Optional[Status] (None is falsy, every member of the
+        Status enum is truthy)"""
+        a, t = self.expr(e, env)
+        if t == "OptStatus":
+            return "(%s).isSome" % a, "Bool"
+        return a, t
+
     def expr(self, e, env):
         if isinstance(e, ast.Constant):
             if isinstance(e.value, bool):
@@ -238,9 +264,17 @@ class Fn(object):
                     raise Unsupported("use of the opaque value " + e.id)
                 return env[e.id]
             raise Unsupported("name %s" % e.id)
+        if isinstance(e, ast.Attribute) and e.attr == "value" and ast.unparse(e.value) == "self.policy" \
+                and self.ftypes.get("policy") == "OneShotPolicy":
+            if "policy_value" not in self.reads:
+                self.reads.append("policy_value")
+            self.ftypes["policy_value"] = "StatusList"
+            return "f_policy_value", "StatusList"
         if isinstance(e, ast.Attribute):
             if is_status_const(e):
                 return STATUS[e.attr], "Status"
+            if isinstance(e.value, ast.Name) and e.value.id == "self" and ("!refined:self." + e.attr) in env:
+                return env["!refined:self." + e.attr]
             if isinstance(e.value, ast.Name) and e.value.id == "self" and e.attr != "decorated":
                 return self.field(env, e.attr)
             if e.attr == "status" and ast.unparse(e.value) == "self.decorated":
@@ -255,6 +289,20 @@ class Fn(object):
                     and e.attr in self.consts_of[e.value.id]:
                 return char_list(self.consts_of[e.value.id][e.attr]), "Str"
             raise Unsupported("attribute " + ast.unparse(e))
+        if isinstance(e, ast.Compare) and len(e.ops) == 1 and isinstance(e.ops[0], (ast.Is, ast.IsNot)) \
+                and isinstance(e.comparators[0], ast.Constant) and e.comparators[0].value is None \
+                and type(self) is Fn:
+            a, ta = self.expr(e.left, env)
+            if ta != "OptStatus":
+                raise Unsupported("`is None` on " + ta)
+            return ("(%s).isNone" if isinstance(e.ops[0], ast.Is) else "(%s).isSome") % a, "Bool"
+        if isinstance(e, ast.Compare) and len(e.ops) == 1 and isinstance(e.ops[0], (ast.In, ast.NotIn)):
+            a, ta = self.expr(e.left, env)
+            b, tb = self.expr(e.comparators[0], env)
+            if ta != "Status" or tb != "StatusList":
+                raise Unsupported("membership of %s in %s" % (ta, tb))
+            r = "(%s.contains %s)" % (b, a)
+            return (r if isinstance(e.ops[0], ast.In) else "(!%s)" % r), "Bool"
         if isinstance(e, ast.Compare) and len(e.ops) == 1:
             a, ta = self.expr(e.left, env)
             b, tb = self.expr(e.comparators[0], env)
@@ -272,13 +320,13 @@ class Fn(object):
                 raise Unsupported("operator " + ast.dump(op))
             return "decide (%s %s %s)" % (a, sym, b), "Bool"
         if isinstance(e, ast.BoolOp):
-            parts = [self.expr(v, env) for v in e.values]
+            parts = [self.truth(v, env) for v in e.values]
             if any(t != "Bool" for _, t in parts):
                 raise Unsupported("truthiness of a non-bool")
             j = " && " if isinstance(e.op, ast.And) else " || "
             return "(" + j.join(p for p, _ in parts) + ")", "Bool"
         if isinstance(e, ast.UnaryOp) and isinstance(e.op, ast.Not):
-            a, t = self.expr(e.operand, env)
+            a, t = self.truth(e.operand, env)
             if t != "Bool":
                 raise Unsupported("truthiness of a non-bool")
             return "(!%s)" % a, "Bool"
@@ -415,6 +463,8 @@ class Fn(object):
             parts.append(value)
         if self.cancels:
             parts.append(env.get("!cancel", ("false", "Bool"))[0])
+        if self.publishes:
+            parts.append(env.get("!publish", ("none", "OptStatus"))[0])
         r = "(" + ", ".join(parts) + ")" if len(parts) != 1 else parts[0]
         if not parts:
             r = "()"
@@ -438,13 +488,31 @@ class Fn(object):
                 env = dict(env)
                 env["!cancel"] = ("true", "Bool")          # the callback cancels its child
                 return self.block(rest, env, ind)
+            if isinstance(v, ast.Call) and ast.unparse(v.func) == "self.blackboard.set":
+                kw = {k.arg: k.value for k in v.keywords}
+                args = list(v.args)
+                name = kw.get("name", args[0] if args else None)
+                value = kw.get("value", args[1] if len(args) > 1 else None)
+                over = kw.get("overwrite", args[2] if len(args) > 2 else None)
+                if name is None or ast.unparse(name) != "self.variable_name" or value is None \
+                        or not (isinstance(over, ast.Constant) and over.value is True) or "!publish" in env:
+                    raise Unsupported("blackboard write " + ast.unparse(v))
+                val, tv = self.expr(value, env)
+                if tv != "Status":
+                    raise Unsupported("published value of type " + tv)
+                env = dict(env)
+                env["!publish"] = ("(some %s)" % val, "OptStatus")
+                return self.block(rest, env, ind)
             raise Unsupported("statement " + ast.unparse(st))
         if isinstance(st, ast.Pass):
             return self.block(rest, env, ind)
         if isinstance(st, ast.Return):
             if st.value is None:
                 return pad + self.result(env, None)
-            v, _ = self.expr(st.value, env)
+            v, tv = self.expr(st.value, env)
+            want = ann_type(self.fn.returns)
+            if want is not None and tv != want:
+                raise Unsupported("a path returns a %s where the function returns %s" % (tv, want))
             return pad + self.result(env, v)
         if isinstance(st, ast.Raise):
             exc = st.exc
@@ -465,10 +533,13 @@ class Fn(object):
                     return self.block(rest, env, ind)
                 v, t = self.expr(val, env)
                 want = self.ftypes.get(tgt.attr)
+                if want == "OptStatus" and t == "Status":
+                    v, t = "(some %s)" % v, "OptStatus"
                 if want != t:
                     raise Unsupported("self.%s : %s assigned a %s" % (tgt.attr, want, t))
                 n = self.fresh("f_" + tgt.attr)
                 env = dict(env)
+                env.pop("!refined:self." + tgt.attr, None)
                 env["self." + tgt.attr] = (n, t)
                 return "%slet %s : %s := %s\n%s" % (pad, n, LEAN_TYPE[t], v, self.block(rest, env, ind))
             if isinstance(tgt, ast.Name):
@@ -482,8 +553,29 @@ class Fn(object):
                 env[tgt.id] = (n, t)
                 return "%slet %s : %s := %s\n%s" % (pad, n, LEAN_TYPE[t], v, self.block(rest, env, ind))
             raise Unsupported("assignment target " + ast.unparse(tgt))
+        opt_test, negated = st.test if isinstance(st, ast.If) else None, False
+        if isinstance(opt_test, ast.UnaryOp) and isinstance(opt_test.op, ast.Not):
+            opt_test, negated = opt_test.operand, True
+        if isinstance(opt_test, ast.Compare) and len(opt_test.ops) == 1 and isinstance(opt_test.ops[0], (ast.Is, ast.IsNot)) \
+                and isinstance(opt_test.comparators[0], ast.Constant) and opt_test.comparators[0].value is None:
+            negated = negated != isinstance(opt_test.ops[0], ast.Is)
+            opt_test = opt_test.left
+        if isinstance(st, ast.If) and isinstance(opt_test, ast.Attribute) and isinstance(opt_test.value, ast.Name) \
+                and opt_test.value.id == "self" and self.ftypes.get(opt_test.attr) == "OptStatus" \
+                and ("!refined:self." + opt_test.attr) not in env:
+            # `if self.f:` / `if not self.f:` / `is [not] None` on an Optional[Status]: where it holds a value the field
+            # is that Status
+            cur, _ = self.field(env, opt_test.attr)
+            v = self.fresh("v_" + opt_test.attr)
+            env_t = dict(env)
+            env_t["self." + opt_test.attr] = ("(some %s)" % v, "OptStatus")
+            env_t["!refined:self." + opt_test.attr] = (v, "Status")
+            some_body, none_body = (st.orelse, st.body) if negated else (st.body, st.orelse)
+            a = self.block(list(some_body) + rest, env_t, ind + 2)
+            b = self.block(list(none_body) + rest, dict(env), ind + 2)
+            return "%smatch %s with\n%s| some %s =>\n%s\n%s| none =>\n%s" % (pad, cur, pad, v, a, pad, b)
         if isinstance(st, ast.If):
-            c, tc = self.expr(st.test, env)
+            c, tc = self.truth(st.test, env)
             if tc != "Bool":
                 raise Unsupported("truthiness of a non-bool in `if`")
             a = self.block(list(st.body) + rest, dict(env), ind + 1)
@@ -518,6 +610,8 @@ class Fn(object):
             outs.append(self.ret_type())
         if self.cancels:
             outs.append("Bool")
+        if self.publishes:
+            outs.append("Option Status")
         ty = " × ".join(outs) if outs else "Unit"
         if self.raises:
             ty = "Except PyErr (%s)" % ty
@@ -636,6 +730,24 @@ def translate_target(repo, trees, f, cname, fname, lname):
         trees[f] = ast.parse(open(os.path.join(repo, f)).read())
     tree = trees[f]
     cls = find_class(tree, cname)
+    if fname == "<enum>":
+        # an enum whose members are lists of statuses (OneShotPolicy): one definition per member
+        out = []
+        for st in cls.body:
+            if isinstance(st, ast.Assign) and len(st.targets) == 1 and isinstance(st.targets[0], ast.Name):
+                v = st.value
+                if not isinstance(v, ast.List):
+                    raise Unsupported("member %s of %s is not a list" % (st.targets[0].id, cname))
+                items = []
+                for e in v.elts:
+                    if isinstance(e, ast.Attribute) and e.attr in STATUS and ast.unparse(e.value) in ("Status", "common.Status"):
+                        items.append(STATUS[e.attr])
+                    else:
+                        raise Unsupported("member %s of %s holds %s" % (st.targets[0].id, cname, ast.unparse(e)))
+                out.append("def %s_%s : List Status := [%s]\n" % (lname, st.targets[0].id, ", ".join(items)))
+        if not out:
+            raise Unsupported("enum %s has no members" % cname)
+        return "\n".join(out)
     fn = find_func(cls, fname)
     consts = {c.name: class_constants(c) for c in tree.body if isinstance(c, ast.ClassDef)}
     return (TipFn if fname == "tip" else Fn)(cls, fn, consts).translate(lname)
